@@ -505,3 +505,37 @@ package tengo
 //@   assigns nothing
 //@   ensures argc: len(args) != 1 ==> res0 == nil && res1 == ErrWrongNumArguments
 //@   ensures frozen: len(args) == 1 ==> res1 == nil && !is(res0, *Array) && !is(res0, *Map)
+
+// ---------------------------------------------------------------------------
+// constant de-duplication (C12, C02: every constant reference stays valid)
+// ---------------------------------------------------------------------------
+
+// rewriting the instruction streams needs the well-formed-stream predicate
+// (not built yet): assumed frame only
+//@ func updateConstIndexes
+//@   mode assumed needs the instruction-stream well-formedness predicate
+//@   assigns insts[*]
+
+//@ func (*Bytecode).RemoveDuplicates
+//@   props C12 C02
+//@   requires kinds: forall i in 0..len(b.Constants) :: is(b.Constants[i], *CompiledFunction) || is(b.Constants[i], *ImmutableMap)
+//@                     || is(b.Constants[i], *Int) || is(b.Constants[i], *String) || is(b.Constants[i], *Float) || is(b.Constants[i], *Char)
+//@   requires b.MainFunction != nil
+//@   assigns *
+//@   let consts = b.Constants
+//@   loop 0 assigns nothing
+//@   loop 0 invariant idx: 0 <= rangeindex+1 && rangeindex+1 <= len(consts)
+//@   loop 0 invariant fresh_store{C12}: cap(deduped) > 0 ==> fresh(deduped)
+//@   loop 0 invariant mapped{C02,C12}: forall i in 0..rangeindex+1 :: haskey(indexMap, i) && 0 <= indexMap[i] && indexMap[i] < len(deduped)
+//@   loop 0 invariant same_kind{C12}: forall i in 0..rangeindex+1 :: tagof(deduped[indexMap[i]]) == tagof(old(consts[i]))
+//@   loop 0 invariant fns_rng{C02,C12}: forall k *CompiledFunction :: haskey(fns, k) ==> 0 <= fns[k] && fns[k] < len(deduped) && deduped[fns[k]] == k
+//@   loop 0 invariant ints_rng{C02,C12}: forall k int64 :: haskey(ints, k) ==> 0 <= ints[k] && ints[k] < len(deduped)
+//@                     && is(deduped[ints[k]], *Int) && deduped[ints[k]].(*Int).Value == k
+//@   loop 0 invariant strings_rng{C02,C12}: forall k string :: haskey(strings, k) ==> 0 <= strings[k] && strings[k] < len(deduped)
+//@                     && is(deduped[strings[k]], *String) && deduped[strings[k]].(*String).Value == k
+//@   loop 0 invariant floats_rng{C02,C12}: forall k float64 :: haskey(floats, k) ==> 0 <= floats[k] && floats[k] < len(deduped)
+//@                     && is(deduped[floats[k]], *Float)
+//@   loop 0 invariant chars_rng{C02,C12}: forall k rune :: haskey(chars, k) ==> 0 <= chars[k] && chars[k] < len(deduped)
+//@                     && is(deduped[chars[k]], *Char) && deduped[chars[k]].(*Char).Value == k
+//@   loop 0 invariant mods_rng{C02,C12}: forall k string :: haskey(immutableMaps, k) ==> 0 <= immutableMaps[k] && immutableMaps[k] < len(deduped)
+//@                     && is(deduped[immutableMaps[k]], *ImmutableMap)
